@@ -81,11 +81,30 @@ func bgvCoeff(t uint64, k, i int) uint64 {
 	return c
 }
 
-func bgvCoeffs(t uint64, sh shape, k int) []uint64 {
+func bgvCoeffs(t uint64, sh shape, k int) []uint64 { return bgvCoeffsKind(t, sh, k, 0) }
+
+// coefficient alphabets: 0 small distinct residues; 1 residues at the edges (t-1, t-2, t-5 and, when they are below t,
+// 2^53-1, 2^53, 2^53+1: the float64 mantissa edge); 2 unreduced integers (>= t, up to the edges of uint64): the result
+// is demanded modulo t.
+func bgvCoeffsKind(t uint64, sh shape, k, kind int) []uint64 {
+	edge := []uint64{t - 1, t - 2, t - 5}
+	for _, v := range []uint64{1<<53 - 1, 1 << 53, 1<<53 + 1} {
+		if v < t {
+			edge = append(edge, v)
+		}
+	}
+	unred := []uint64{1<<63 + 1<<10 + 1, 1<<53 + 1, 1<<64 - 1, 1 << 63, t + 1, 2*t + 3}
 	cs := make([]uint64, sh.degree+1)
 	for i := range cs {
 		if sh.mask>>i&1 == 1 {
-			cs[i] = bgvCoeff(t, k, i)
+			switch kind {
+			case 1:
+				cs[i] = edge[(i+2*k)%len(edge)]
+			case 2:
+				cs[i] = unred[(i+k)%len(unred)]
+			default:
+				cs[i] = bgvCoeff(t, k, i)
+			}
 		}
 	}
 	return cs
@@ -163,12 +182,22 @@ func bgvLeaf(c *engine.Chooser, scName string, cfg *bgvCfg) {
 	}
 	declare := sh.parity != 0 && (cfg.declared || c.Bool("declareParity"))
 	nilHoles := c.Bool("nilHoles") // zero coefficients handed over as nil (absent) coefficients
+	coeffKind := c.Choose(3, "coeffs")
+	c.Cover("bgv-coeffs", []string{"small", "edge", "unreduced"}[coeffKind])
+	if t > 1<<53 {
+		c.Cover("bgv-t", ">2^53")
+		// noise budget: with t > 2^53 a product grows the noise by about t*N = 2^58; the output must stay above level 0
+		if !cfg.invariant && level-need < 1 && level >= need {
+			c.Skip("t > 2^53: output at level 0 is outside the noise budget")
+			return
+		}
+	}
 	mode := "standard"
 	if cfg.invariant {
 		mode = "invariant"
 	}
-	desc := fmt.Sprintf("bgv/%s %s kind=%d entry=%s level=%d(need %d, max %d) inScale=%d targetScale=%d declareParity=%v nilHoles=%v",
-		mode, sh.name, kind, entryNames[entry], level, need, maxLevel, inScale, tgtScale, declare, nilHoles)
+	desc := fmt.Sprintf("bgv/%s %s kind=%d entry=%s level=%d(need %d, max %d) inScale=%d targetScale=%d declareParity=%v nilHoles=%v coeffs=%d",
+		mode, sh.name, kind, entryNames[entry], level, need, maxLevel, inScale, tgtScale, declare, nilHoles, coeffKind)
 	c.Note("%s", desc)
 	sig := "C13/bgv-" + mode + "/" + entryNames[entry]
 	class := knownClass("bgv", sh, kind, entry, declare)
@@ -210,7 +239,7 @@ func bgvLeaf(c *engine.Chooser, scName string, cfg *bgvCfg) {
 		if kind >= kVector0 {
 			shk.mask = maps[kind-kVector0].maskOf(sh, k)
 		}
-		coeffs[k] = bgvCoeffs(t, shk, k)
+		coeffs[k] = bgvCoeffsKind(t, shk, k, coeffKind)
 	}
 	if mp == nil {
 		for j := range want {
